@@ -51,6 +51,7 @@ func replay(path string, out *kit.Out) error {
 }
 
 func generate(seed uint64, n int, tier, corpusDir string, shard int, out *kit.Out) error {
+	stuck := 0
 	if corpusDir != "" {
 		files, _ := filepath.Glob(filepath.Join(corpusDir, "*.json"))
 		sort.Strings(files)
@@ -64,19 +65,23 @@ func generate(seed uint64, n int, tier, corpusDir string, shard int, out *kit.Ou
 				return fmt.Errorf("%s: %w", f, err)
 			}
 			c.Tags = append(c.Tags, "corpus:"+filepath.Base(f))
+			for _, t := range c.Tags {
+				if t == "stuck" {
+					stuck++
+				}
+			}
 			out.Emit(c)
 		}
 	}
 	rng := kit.NewRng(seed + uint64(shard)*1000003)
 	// a tree on which the instances get stuck must not cost minutes: each stuck scenario is
 	// abandoned after a few seconds and reported as a rejected case; after a handful the run stops
-	stuck := 0
 	start := time.Now()
 	budget := 150 * time.Second
 	if tier != "quick" {
 		budget = 40 * time.Minute
 	}
-	for i := 0; i < n && stuck < 6 && time.Since(start) < budget; i++ {
+	for i := 0; i < n && stuck < 4 && time.Since(start) < budget; i++ {
 		r := rng.Fork()
 		p := pickProfile(r)
 		sc := &scenario{Backend: "mem", NP: p.np, Keys: p.keys}
